@@ -260,6 +260,14 @@ pub fn depth1() -> Vec<Ty> {
         (p("u32"), p("string")),
         (p("char"), Ty::List(b(p("u8")))),
         (p("u64"), p("u8")),
+        // key size not a multiple of the value's alignment: the value sits
+        // at an aligned offset > size(key)
+        (p("u8"), p("string")),
+        (p("bool"), Ty::List(b(p("u32")))),
+        (p("u16"), Ty::List(b(p("u32")))),
+        (p("u32"), Ty::Tuple(vec![p("u64"), p("string")])),
+        (p("u16"), p("u64")),
+        (p("u8"), Ty::Own),
     ] {
         v.push(Ty::Map(b(k), b(val)));
     }
@@ -373,6 +381,14 @@ pub fn sigs_for(tier: &str, seed: u64) -> Vec<Sig> {
         Some(Ty::Res(Some(b(p("f32"))), Some(b(p("string"))))),
         Some(Ty::Enum(3)),
         Some(Ty::Own),
+        // results on both sides of the flat limits that apply to results:
+        // 1 (sync), 4 (MAX_FLAT_ASYNC_PARAMS) and 16 (task.return)
+        Some(Ty::Tuple(rep(p("u32"), 4))),
+        Some(Ty::Tuple(rep(p("u32"), 5))),
+        Some(Ty::Tuple(vec![p("string"), p("string"), p("u64")])),
+        Some(Ty::Tuple(rep(p("u16"), 16))),
+        Some(Ty::Tuple(rep(p("u32"), 17))),
+        Some(Ty::Record(vec![p("u8"), p("f64"), p("string"), Ty::Opt(b(p("u64")))])),
     ];
     // flat counts 0, 1, 3, 4, 5, 15, 16, 17, 20 with mixed classes
     let mixes: Vec<Vec<Ty>> = vec![
